@@ -75,6 +75,12 @@ check("C14", "fault_enumeration",
   "Encryption and the remaining option combinations are not crossed with the sweeps; a sink that returns (0, nil) forever is not modelled (the standard library's bufio.Writer itself never terminates on it).",
   "DESIGN.md §2 C14")
 
+check("C04", "exploration",
+  "bounded exhaustive enumeration of value sequences per (encoding, type) pair on the real Encode*/Decode* methods, with a round-trip oracle, an independent spec decoder (pqref), destination-buffer histories, and case-by-case comparison of the encoded bytes across build variants (asm, AVX-512/AVX2 disabled, purego)",
+  "For 63 (encoding, type) pairs incl. the hybrid RLE/bit-packed encoding at every bit width 0..32, ALL sequences of length <=4 (6 thorough) over boundary-value alphabets and 10 structured patterns at 18 lengths around the 8/32/64/128/256/1024-value block boundaries are encoded; Decode(Encode(x)) must equal x for four destination-buffer histories, encoding must not depend on what dst held or on reusing a previous result, pqref must decode the same sequence from the bytes, and the bytes must be identical in every build variant.",
+  "Alphabets of 5-6 values per type; lengths beyond 1025 and dictionaries' own insert/lookup kernels are exercised through C01/C03 (DictFixed type, 600-row batches), not here; GOEXPERIMENT=simd build not included.",
+  "DESIGN.md §2 C04")
+
 NOT_YET = "check not built yet in this round (design in DESIGN.md §2); not claimed until its check exists"
 
 m = {
